@@ -349,12 +349,11 @@ fn align_remaining_edges(
                     let new_pos = if after.opos == before.opos {
                         before.pos
                     } else {
-                        before.pos
-                            + fixed_mul_div(
-                                edge.opos - before.opos,
-                                after.pos - before.pos,
-                                after.opos - before.opos,
-                            )
+                        before.pos.wrapping_add(fixed_mul_div(
+                            edge.opos.wrapping_sub(before.opos),
+                            after.pos.wrapping_sub(before.pos),
+                            after.opos.wrapping_sub(before.opos),
+                        ))
                     };
                     edges[edge_ix].pos = new_pos;
                 } else {
@@ -410,12 +409,11 @@ fn align_remaining_edges(
                     if after.fpos == before.fpos {
                         edges[edge_ix].pos = before.pos;
                     } else {
-                        edges[edge_ix].pos = before.pos
-                            + fixed_mul_div(
-                                edge.fpos as i32 - before.fpos as i32,
-                                after.pos - before.pos,
-                                after.fpos as i32 - before.fpos as i32,
-                            );
+                        edges[edge_ix].pos = before.pos.wrapping_add(fixed_mul_div(
+                            edge.fpos as i32 - before.fpos as i32,
+                            after.pos.wrapping_sub(before.pos),
+                            after.fpos as i32 - before.fpos as i32,
+                        ));
                     }
                 }
                 _ => {}
